@@ -95,10 +95,13 @@ fn record(args: &Args) {
                     match catch(|| {
                         let pk = M::to_db_partition_key(&node, PartitionNumber(pn));
                         let (bn, bp) = M::from_db_partition_key(&pk);
-                        (pk, bn, bp)
+                        let alt = vec![M::to_db_node_key(&node)];
+                        let altback = vec![M::from_db_node_key(&pk.node_key).0.to_vec()];
+                        let altpn = vec![M::to_db_partition_num(PartitionNumber(pn)), M::from_db_partition_num(pk.partition_num).0];
+                        (pk, bn, bp, alt, altback, altpn)
                     }) {
-                        Ok((pk, bn, bp)) => json!({"k": "node", "body": b, "pn": pn, "db": pk.node_key, "dbpn": pk.partition_num,
-                            "back": bn.0.to_vec(), "backpn": bp.0, "h": h20(&b)}),
+                        Ok((pk, bn, bp, alt, altback, altpn)) => json!({"k": "node", "body": b, "pn": pn, "db": pk.node_key, "dbpn": pk.partition_num,
+                            "back": bn.0.to_vec(), "backpn": bp.0, "h": h20(&b), "alt": alt, "altback": altback, "altpn": altpn}),
                         Err(e) => json!({"k": "panic", "what": "node", "body": b, "msg": e}),
                     }
                 }
@@ -107,10 +110,13 @@ fn record(args: &Args) {
                     match catch(|| {
                         let db = M::to_db_sort_key(&SubstateKey::Field(f));
                         let back = M::from_db_sort_key::<FieldKey>(&db);
-                        (db, back)
+                        // every other public entry point for the same logical key
+                        let alt = vec![M::to_db_sort_key_from_ref(SubstateKeyRef::Field(&f)).0, M::field_to_db_sort_key(&f).0];
+                        let altback = vec![M::field_from_db_sort_key(&db), M::from_db_sort_key_to_inner::<FieldKey>(&db)];
+                        (db, back, alt, altback)
                     }) {
-                        Ok((db, SubstateKey::Field(back))) => json!({"k": "field", "f": f, "db": db.0, "back": back}),
-                        Ok((db, _)) => json!({"k": "panic", "what": "field", "db": db.0, "msg": "wrong key kind returned"}),
+                        Ok((db, SubstateKey::Field(back), alt, altback)) => json!({"k": "field", "f": f, "db": db.0, "back": back, "alt": alt, "altback": altback}),
+                        Ok((db, _, _, _)) => json!({"k": "panic", "what": "field", "db": db.0, "msg": "wrong key kind returned"}),
                         Err(e) => json!({"k": "panic", "what": "field", "f": f, "msg": e}),
                     }
                 }
@@ -120,10 +126,12 @@ fn record(args: &Args) {
                     match catch(|| {
                         let db = M::to_db_sort_key(&SubstateKey::Map(b.clone()));
                         let back = M::from_db_sort_key::<MapKey>(&db);
-                        (db, back)
+                        let alt = vec![M::to_db_sort_key_from_ref(SubstateKeyRef::Map(&b)).0, M::map_to_db_sort_key(&b).0];
+                        let altback = vec![M::map_from_db_sort_key(&db), M::from_db_sort_key_to_inner::<MapKey>(&db)];
+                        (db, back, alt, altback)
                     }) {
-                        Ok((db, SubstateKey::Map(back))) => json!({"k": "map", "body": b, "db": db.0, "back": back, "h": h20(&b)}),
-                        Ok((db, _)) => json!({"k": "panic", "what": "map", "db": db.0, "msg": "wrong key kind returned"}),
+                        Ok((db, SubstateKey::Map(back), alt, altback)) => json!({"k": "map", "body": b, "db": db.0, "back": back, "h": h20(&b), "alt": alt, "altback": altback}),
+                        Ok((db, _, _, _)) => json!({"k": "panic", "what": "map", "db": db.0, "msg": "wrong key kind returned"}),
                         Err(e) => json!({"k": "panic", "what": "map", "body": b, "msg": e}),
                     }
                 }
@@ -135,15 +143,18 @@ fn record(args: &Args) {
                     match catch(|| {
                         let db = M::to_db_sort_key(&SubstateKey::Sorted(key.clone()));
                         let back = M::from_db_sort_key::<SortedKey>(&db);
-                        (db, back)
+                        let alt = vec![M::to_db_sort_key_from_ref(SubstateKeyRef::Sorted(&key)).0, M::sorted_to_db_sort_key(&key).0];
+                        let a1 = M::sorted_from_db_sort_key(&db);
+                        let a2 = M::from_db_sort_key_to_inner::<SortedKey>(&db);
+                        (db, back, alt, vec![a1.0.to_vec(), a2.0.to_vec()], vec![a1.1, a2.1])
                     }) {
-                        Ok((db, SubstateKey::Sorted(back))) => {
+                        Ok((db, SubstateKey::Sorted(back), alt, altbackp, altback)) => {
                             let e = json!({"k": "sorted", "p": p, "body": b, "db": db.0, "backp": back.0.to_vec(), "back": back.1,
-                                "h": h20(&b), "ord": false});
+                                "h": h20(&b), "ord": false, "alt": alt, "altbackp": altbackp, "altback": altback});
                             sorted_db.insert(db.0.clone(), e.clone());
                             e
                         }
-                        Ok((db, _)) => json!({"k": "panic", "what": "sorted", "db": db.0, "msg": "wrong key kind returned"}),
+                        Ok((db, _, _, _, _)) => json!({"k": "panic", "what": "sorted", "db": db.0, "msg": "wrong key kind returned"}),
                         Err(e) => json!({"k": "panic", "what": "sorted", "body": b, "msg": e}),
                     }
                 }
